@@ -389,3 +389,218 @@ Proof.
   split; [unfold in_range, two; simpl; lia|]. split; [unfold in_range, two; simpl; lia|].
   repeat split; vm_compute; reflexivity.
 Qed.
+
+(* ================= answers to the referee report (design/reviews/C02.md) ================= *)
+From FFS Require Import Abi.ReprSpec Abi.ReprTyped.
+From FFS Require Abi.ReprWalk Abi.ReprUnique Abi.ReprC19.
+
+(* 14. (issue 1, completeness) [repr I tc input v] (Abi/ReprSpec.v) states INDEPENDENTLY of the readers
+       of inputparsing.go which value an external input denotes for a component tree: hex text = two
+       hex digits per byte (either case, optional "0x"), an address = the big-endian number of its
+       bytes, "true" in any case = 1 and every other text 0, strings / bytes as given, sequences
+       element by element (a []byte stands for its uint8 elements), tuples by position or by object
+       key (member name, or the decimal text of the position for unnamed members); integer leaves by
+       the parameter [I].  EVERY input that denotes a well-typed value v is accepted and encoded as
+       enc(type, v) - for any parser [bifs] and any integer denotation [I] that the reader realises
+       ([int_read]: texts through [bifs], big.Int / sized ints as themselves, floats truncated). *)
+Theorem C02_denoted_value_accepted :
+  forall (bifs : bytes -> res Z) (I : ext -> Z -> Prop),
+    (forall x z, I x z -> int_read bifs x z) ->
+  forall (params : list tcomp) (input : ext) (v : val),
+    let root := root_of params in
+    tc_wf root = true -> tc_no_fixed_point root = true -> tc_no_zero_len root = true ->
+    repr I root input v -> well_typed (ty_of root) v = true -> (Z.of_nat (weight v) < 2 ^ 248)%Z ->
+    EncodeABIDataValues bifs params input = Ok (enc (ty_of root) v).
+Proof. exact ReprWalk.denoted_value_encoded. Qed.
+Print Assumptions C02_denoted_value_accepted.
+
+(* 15. (issue 1, soundness) Conversely, whatever EncodeABIDataValues accepts is the encoding of a
+       value the input denotes per [repr] (integer leaves: [int_denotes D], D any relation the parser
+       is sound for), and that value is well typed - provided no bytes<M> / function value in it is
+       longer than its type allows ([not_longer]; the code accepts a longer byte string and encodes
+       its first M bytes: outside the quantifier "bytes<M> values of exactly their declared length").
+       A bug shared by the model's reader and the code's (a prefix strip eating a digit, a wrong
+       nibble order, a wrong key for unnamed members) would make 14 or 15 unprovable. *)
+Theorem C02_accepted_is_denoted :
+  forall (bifs : bytes -> res Z) (D : bytes -> Z -> Prop),
+    (forall s z, bifs s = Ok z -> D s z) ->
+  forall (params : list tcomp) (input : ext) (b : bytes),
+    let root := root_of params in
+    tc_wf root = true -> tc_no_fixed_point root = true -> tc_no_zero_len root = true ->
+    ext_clean input = true ->
+    EncodeABIDataValues bifs params input = Ok b ->
+    exists v, repr (int_denotes D) root input v /\
+              (not_longer (ty_of root) v = true -> (Z.of_nat (weight v) < 2 ^ 248)%Z ->
+                 well_typed (ty_of root) v = true /\ b = enc (ty_of root) v).
+Proof. exact accepted_is_denoted_typed. Qed.
+Print Assumptions C02_accepted_is_denoted.
+
+(* 16. the value an input denotes is unique (so the "exists v" of 15 pins v), and the guard
+       [not_longer] of 15 holds for every well-typed value *)
+Theorem C02_denotation_unique :
+  forall (I : ext -> Z -> Prop), (forall x z z', I x z -> I x z' -> z = z') ->
+  forall tc x v v', repr I tc x v -> repr I tc x v' -> v = v'.
+Proof. exact ReprUnique.repr_unique. Qed.
+Print Assumptions C02_denotation_unique.
+
+Theorem C02_well_typed_not_longer :
+  forall t v, well_typed t v = true -> not_longer t v = true.
+Proof. exact well_typed_not_longer. Qed.
+Print Assumptions C02_well_typed_not_longer.
+
+(* 17. 14-16 with property C19's model of ethtypes.BigIntegerFromString: no hypothesis about the
+       parser.  Integer leaves denote per [ReprC19.I19] = [int_denotes accepts19], where
+       [accepts19 t z] is C19's COMPLETE specification of the accepted texts (C19_accepted_iff): t is
+       a text math/big documents with the integer value z. *)
+Theorem C02_denoted_value_accepted_c19 :
+  forall (params : list tcomp) (input : ext) (v : val),
+    let root := root_of params in
+    tc_wf root = true -> tc_no_fixed_point root = true -> tc_no_zero_len root = true ->
+    repr ReprC19.I19 root input v -> well_typed (ty_of root) v = true -> (Z.of_nat (weight v) < 2 ^ 248)%Z ->
+    EncodeABIDataValues EthTypes.Model.BigIntegerFromString params input = Ok (enc (ty_of root) v).
+Proof. exact ReprC19.denoted_value_encoded_c19. Qed.
+Print Assumptions C02_denoted_value_accepted_c19.
+
+Theorem C02_accepted_is_denoted_c19 :
+  forall (params : list tcomp) (input : ext) (b : bytes),
+    let root := root_of params in
+    tc_wf root = true -> tc_no_fixed_point root = true -> tc_no_zero_len root = true ->
+    ext_clean input = true ->
+    EncodeABIDataValues EthTypes.Model.BigIntegerFromString params input = Ok b ->
+    exists v, repr ReprC19.I19 root input v /\
+              (not_longer (ty_of root) v = true -> (Z.of_nat (weight v) < 2 ^ 248)%Z ->
+                 well_typed (ty_of root) v = true /\ b = enc (ty_of root) v).
+Proof. exact ReprC19.accepted_is_denoted_c19. Qed.
+Print Assumptions C02_accepted_is_denoted_c19.
+
+Theorem C02_denotation_unique_c19 :
+  forall tc x v v', repr ReprC19.I19 tc x v -> repr ReprC19.I19 tc x v' -> v = v'.
+Proof. exact ReprC19.repr_unique_c19. Qed.
+Print Assumptions C02_denotation_unique_c19.
+
+(* 18. (issue 2) Theorem 12's denotation D19 says nothing about a text outside C19's four spelling
+       classes.  Here the denotation of a text is C19's complete specification [accepts19] (every
+       text math/big documents, with its value; every other text denotes nothing), so for EVERY
+       external value x given for uint<M> / int<M>:
+         - accepted => the word of an in-range integer that x denotes;
+         - x denotes z (uniquely): in range => accepted as the word of z, out of range => error;
+         - x denotes nothing (and is not a typed-nil *big.Int / infinite *big.Float) => error.
+       Consequence made explicit below: a decimal-looking text with a leading zero is read by Go's
+       base-prefix syntax ("010" is octal 8), which [accepts19] states; the quantifier's "decimal
+       string" is C19's canonical decimal (no leading zero). *)
+Theorem C02_integers_every_value_c19 :
+  forall e s m k x,
+    (e = EInt \/ e = EUInt) -> tc_wf (int_tc e s m k) = true ->
+    let run := EncodeABIDataValues EthTypes.Model.BigIntegerFromString [int_tc e s m k] (XList [x]) in
+    match run with
+    | Ok b => exists z, ReprC19.I19 x z /\ in_range e m z /\ b = word z
+    | Err _ => True
+    | Panic => x = XBigInt None \/ exists sg, x = XBigFloat (BInf sg)
+    end /\
+    (forall z, ReprC19.I19 x z ->
+       (in_range e m z -> run = Ok (word z)) /\ (~ in_range e m z -> exists err, run = Err err)) /\
+    ((forall z, ~ ReprC19.I19 x z) -> x <> XBigInt None -> (forall sg, x <> XBigFloat (BInf sg)) ->
+       exists err, run = Err err).
+Proof. exact ReprC19.integers_every_value_c19. Qed.
+Print Assumptions C02_integers_every_value_c19.
+
+(* non-vacuity of 14-17: a hand-built derivation of [repr] (not obtained from the walk) for
+   (bytes2, bool) given as the object {"1": "TRUE", "0": "0xaB01"}; the value is well typed, the
+   model returns enc of it, and an over-long bytes2 input is accepted with an ill-typed value
+   (the declared reason for the guard [not_longer]) *)
+Example C02_repr_nonvacuous :
+  let root := root_of ReprC19.ex_r_params in
+  repr ReprC19.I19 root ReprC19.ex_r_input ReprC19.ex_r_val /\
+  tc_wf root = true /\ tc_no_fixed_point root = true /\ tc_no_zero_len root = true /\
+  well_typed (ty_of root) ReprC19.ex_r_val = true /\ not_longer (ty_of root) ReprC19.ex_r_val = true /\
+  ext_clean ReprC19.ex_r_input = true /\
+  EncodeABIDataValues EthTypes.Model.BigIntegerFromString ReprC19.ex_r_params ReprC19.ex_r_input
+    = Ok (enc (ty_of root) ReprC19.ex_r_val) /\
+  length (enc (ty_of root) ReprC19.ex_r_val) = 64%nat /\
+  (let long := XList [XStr (ascii_bytes "0xaB01ff"); XBool true] in
+   is_ok (EncodeABIDataValues EthTypes.Model.BigIntegerFromString ReprC19.ex_r_params long) = true /\
+   not_longer (ty_of root) (VList [VBytes [xab; x01; xff]; VNum 1]) = false).
+Proof.
+  cbv zeta. split; [exact (ReprC19.ex_r_repr ReprC19.I19)|]. repeat split; vm_compute; reflexivity.
+Qed.
+
+(* non-vacuity of 18 and the leading-zero case of issue 2: "010" for uint8 is the word of 8 (octal),
+   which is what [accepts19] says it denotes; "08" (not an octal text) goes through the
+   floating-point syntax and denotes 8; "1_" denotes nothing and is refused *)
+Example C02_every_text_nonvacuous :
+  let u8 := int_tc EUInt (ascii_bytes "8") 8 [] in
+  let run x := EncodeABIDataValues EthTypes.Model.BigIntegerFromString [u8] (XList [x]) in
+  run (XStr (ascii_bytes "010")) = Ok (word 8) /\ ReprC19.I19 (XStr (ascii_bytes "010")) 8 /\
+  run (XStr (ascii_bytes "08")) = Ok (word 8) /\
+  is_err (run (XStr (ascii_bytes "1_"))) = true /\ (forall z, ~ ReprC19.I19 (XStr (ascii_bytes "1_")) z) /\
+  is_err (run (XStr (ascii_bytes "0400"))) = true /\ ReprC19.I19 (XStr (ascii_bytes "0400")) 256.
+Proof.
+  cbv zeta. split; [vm_compute; reflexivity|]. split; [apply ReprC19.bifs19_sound; vm_compute; reflexivity|].
+  split; [vm_compute; reflexivity|]. split; [vm_compute; reflexivity|].
+  split; [intros z H; apply (ReprC19.I19_read _ z) in H; vm_compute in H; discriminate|].
+  split; [vm_compute; reflexivity|apply ReprC19.bifs19_sound; vm_compute; reflexivity].
+Qed.
+
+(* the conclusions "<> Panic" of theorems 3 / 12b are not true by construction of the model: the
+   model does panic - on a typed-nil *big.Int given for an integer and on the text "Inf" given for a
+   fixed-point type - exactly the inputs the hypotheses ext_clean / tc_no_fixed_point exclude *)
+Example C02_model_can_panic :
+  let u8 := int_tc EUInt (ascii_bytes "8") 8 [] in
+  is_panic (EncodeABIDataValues BigIntegerFromString [u8] (XList [XBigInt None])) = true /\
+  ext_clean (XList [XBigInt None]) = false /\
+  is_panic (EncodeABIDataValues BigIntegerFromString [fx EFixed "128x18" 128 18] (XList [XStr (ascii_bytes "Inf")])) = true /\
+  tc_no_fixed_point (root_of [fx EFixed "128x18" 128 18]) = false.
+Proof. cbv zeta. repeat split; vm_compute; reflexivity. Qed.
+
+(* 19. (issue 4(ii)) "every valid ABI parameter list": composition with property C13's model of the
+       type parser (AbiType/Model.v).  [BridgeC13.same_comp tc tc'] : the C02 component tree tc' has the
+       shape of C13's tree tc (same table entry by name, suffix text, M, N, array lengths; any key
+       names).  For every parameter C13's Validate accepts, every such tc' satisfies [tc_wf] - the
+       hypothesis of theorems 1-3, 14, 15 - and its spec type is the valid type that the parameter
+       spells (C13's grammar); a list of such trees gives a well-formed root tuple. *)
+From FFS Require Abi.BridgeC13 AbiType.Model AbiType.Spec AbiType.Abs AbiType.Syntax.
+Theorem C02_validated_component_is_wf :
+  forall (p : AbiType.Syntax.param) (tc : AbiType.Model.tcomp) (tc' : tcomp),
+    AbiType.Model.Validate p = Ok tc -> BridgeC13.same_comp tc tc' ->
+    tc_wf tc' = true /\ AbiType.Abs.ty_of tc = Some (ty_of tc') /\ AbiType.Spec.valid_type (ty_of tc') = true /\
+    AbiType.Spec.spelling (ty_of tc') (AbiType.Syntax.p_type p) (AbiType.Syntax.p_comps p).
+Proof. exact BridgeC13.validated_comp_wf. Qed.
+Print Assumptions C02_validated_component_is_wf.
+
+Theorem C02_validated_parameters_are_wf :
+  forall (ps : list AbiType.Syntax.param) (tcs : list tcomp),
+    Forall2 (fun p tc' => exists tc, AbiType.Model.Validate p = Ok tc /\ BridgeC13.same_comp tc tc') ps tcs ->
+    tc_wf (root_of tcs) = true.
+Proof. exact BridgeC13.validated_params_wf. Qed.
+Print Assumptions C02_validated_parameters_are_wf.
+
+(* non-vacuity of 19: {"type":"tuple[2][]","components":[{"type":"uint"},{"type":"bytes3"}]} named "t"
+   with members "a" and (unnamed): C13's Validate accepts it, the C02 tree abigen prints for it (alias
+   "uint" expanded to suffix "256", key names on every array level) is same_comp to the parsed tree *)
+Example C02_bridge_nonvacuous :
+  let p := AbiType.Syntax.Param (ascii_bytes "tuple[2][]")
+             [AbiType.Syntax.Param (ascii_bytes "uint") []; AbiType.Syntax.Param (ascii_bytes "bytes3") []] in
+  let t := ascii_bytes "t" in
+  let tc' := TCDynArr (TCFixedArr 2 (TCTuple [TCElem EUInt (ascii_bytes "256") 256 0 (ascii_bytes "a");
+                                               TCElem EBytes (ascii_bytes "3") 3 0 []] t) t) t in
+  (exists tc, AbiType.Model.Validate p = Ok tc /\ BridgeC13.same_comp tc tc') /\ tc_wf tc' = true /\
+  ty_of tc' = TDynArr (TFixedArr (TTuple [TUInt 256; TBytesN 3]) 2).
+Proof.
+  cbv zeta. split; [|split; vm_compute; reflexivity].
+  eexists. split; [vm_compute; reflexivity|].
+  apply BridgeC13.SC_dyn. apply (BridgeC13.SC_fixed _ _ 2%N). apply BridgeC13.SC_tuple.
+  constructor; [apply BridgeC13.SC_elem; reflexivity|]. constructor; [apply BridgeC13.SC_elem; reflexivity|constructor].
+Qed.
+
+(* 14b. theorem 14 through Entry.EncodeCallDataValues / EncodeCallDataJSON: the selector (an input of
+        the model, property C12's subject) followed by enc of the denoted value *)
+Theorem C02_denoted_value_call_accepted :
+  forall (bifs : bytes -> res Z) (I : ext -> Z -> Prop),
+    (forall x z, I x z -> int_read bifs x z) ->
+  forall (sel : bytes) (params : list tcomp) (input : ext) (v : val),
+    let root := root_of params in
+    tc_wf root = true -> tc_no_fixed_point root = true -> tc_no_zero_len root = true ->
+    repr I root input v -> well_typed (ty_of root) v = true -> (Z.of_nat (weight v) < 2 ^ 248)%Z ->
+    EncodeCallDataValues bifs sel params input = Ok (sel ++ enc (ty_of root) v).
+Proof. exact ReprWalk.denoted_value_call_encoded. Qed.
+Print Assumptions C02_denoted_value_call_accepted.
